@@ -387,3 +387,49 @@ def r13d(ctx: Ctx, fq: str = "cirkit.backend.torch.queries.IntegrateQuery.scopes
     if k == 0:
         out.append(unres("R13d", fq, "enumerate", "no enumerate(..) in the function (another formulation): no verdict", f.loc))
     return out
+
+
+# ------------------------------------------------------------------------------------------ R13e
+def r13e(ctx: Ctx, fq: str = "cirkit.symbolic.functional.evidence") -> list[Ob]:
+    """R13e -- observed values are looked up by variable id.
+
+    ``evidence`` receives the observation as a mapping variable id -> value.  A mapping iterates in
+    insertion order, a Scope in increasing id order: the value handed to the evidence layer of
+    variable v has to come from a *key lookup* ``obs[v]`` with v ranging over the layer's scope.  A
+    value array built from ``obs.values()`` (positional) and indexed by positions computed from the
+    scope gives every layer the value written for another variable as soon as the dictionary is not
+    written in increasing id order."""
+    from ..canon import FlowCanon
+    from ..cfg import build_cfg
+
+    f = ctx.repo.func(fq)
+    obs_name = None
+    for p in f.params:
+        if p.annotation is not None and ("Mapping" in unparse(p.annotation) or "dict" in unparse(p.annotation).lower()):
+            obs_name = p.name
+    if obs_name is None:
+        return [unres("R13e", fq, "observation-lookup", "no mapping parameter found", f.loc)]
+    g = ctx.memo("cfg:" + fq, lambda: build_cfg(f.node))
+    fc = ctx.memo("flowcanon:" + fq, lambda: FlowCanon(g))
+    out: list[Ob] = []
+    for n, st in g.stmts.items():
+        if isinstance(st, (ast.If, ast.For, ast.While, ast.With, ast.Try, ast.FunctionDef)):
+            continue
+        for c in ast.walk(st):
+            if isinstance(c, ast.Call) and (unparse(c.func).split(".")[-1] == "ConstantParameter"):
+                val = next((k.value for k in c.keywords if k.arg == "value"), None)
+                if val is None:
+                    continue
+                txt = fc.text(val, n)
+                site = f"{f.module.relpath}:{c.lineno}"
+                positional = f"{obs_name}.values()" in txt or f"list({obs_name})" in txt or f"{obs_name}.items()" in txt and f"{obs_name}[" not in txt
+                keyed = f"{obs_name}[" in txt
+                if positional:
+                    out.append(viol("R13e", fq, "observation-lookup", f"the observation of an evidence layer is built from `{obs_name}.values()` -- the mapping's values by *position* (insertion order) -- indexed with positions derived from a scope (increasing id order): a dictionary not written in increasing id order gives each layer another variable's value", site))
+                elif keyed:
+                    out.append(ok("R13e", fq, "observation-lookup", f"values are looked up by key: {txt[:70]}", site))
+                else:
+                    out.append(unres("R13e", fq, "observation-lookup", f"how the observed values reach the layer was not derived: {txt[:60]}", site))
+    if not out:
+        out.append(unres("R13e", fq, "observation-lookup", "no ConstantParameter(value=..) built in evidence", f.loc))
+    return out
